@@ -3,6 +3,7 @@ package harness
 import (
 	"encoding/json"
 	"fmt"
+	"io"
 	"math/rand"
 	"os"
 	"path/filepath"
@@ -24,17 +25,18 @@ import (
 func init() { register("C20", runC20) }
 
 type c20Item struct {
-	Name  string  `json:"name"`
-	State string  `json:"state"` // in-progress | new-version | held | full-stalled | orphan-cmp | dup-of-delivered | stray-delivered | stray-unknown | delivered
-	AgeH  float64 `json:"age_h"`
-	Size  int64   `json:"size"`
-	Parts int     `json:"parts_received"`
-	Twin  string  `json:"delivered_twin,omitempty"` // another file with the same content, whose name starts with this name, delivered and logged
-	data  []byte
-	hash  string
-	old   []byte // delivered earlier version (new-version / dup)
-	tiles []iv
-	got   []bool
+	Name          string  `json:"name"`
+	State         string  `json:"state"` // in-progress | new-version | held | full-stalled | orphan-cmp | dup-of-delivered | stray-delivered | stray-unknown | delivered
+	AgeH          float64 `json:"age_h"`
+	Size          int64   `json:"size"`
+	Parts         int     `json:"parts_received"`
+	Twin          string  `json:"delivered_twin,omitempty"` // another file with the same content, whose name starts with this name, delivered and logged
+	InFlightClean bool    `json:"cleaning_ran_while_first_part_was_streaming,omitempty"`
+	data          []byte
+	hash          string
+	old           []byte // delivered earlier version (new-version / dup)
+	tiles         []iv
+	got           []bool
 }
 
 type c20Scenario struct {
@@ -60,6 +62,25 @@ func runC20(c *Ctx) {
 		})
 		os.RemoveAll(dir)
 	}
+}
+
+// midReader calls fn once after 'at' bytes have been handed out
+type midReader struct {
+	r    io.Reader
+	at   int
+	n    int
+	done bool
+	fn   func()
+}
+
+func (m *midReader) Read(p []byte) (int, error) {
+	if !m.done && m.n >= m.at {
+		m.done = true
+		m.fn()
+	}
+	n, err := m.r.Read(p)
+	m.n += n
+	return n, err
 }
 
 type treeEntry struct {
@@ -166,8 +187,22 @@ func c20Run(c *Ctx, idx int, rng *rand.Rand, sc *c20Scenario, dir string) {
 			it.tiles = tile(it.Size, 2+rng.Intn(4))
 			it.got = make([]bool, len(it.tiles))
 			nrecv := 1 + rng.Intn(len(it.tiles)-1)
-			for _, ti := range rng.Perm(len(it.tiles))[:nrecv] {
-				_ = sendPart(it, it.data, it.hash, "", it.tiles[ti])
+			it.InFlightClean = rng.Intn(3) == 0
+			for n, ti := range rng.Perm(len(it.tiles))[:nrecv] {
+				if n == 0 && it.InFlightClean {
+					// an on-demand cleaning runs while the first part of the new version is
+					// still streaming in (the staged body exists, its companion not yet)
+					t := it.tiles[ti]
+					d := &desc{Name: it.Name, Hash: it.hash, Size: it.Size, Time: ftime, Beg: t.b, End: t.e, Send: it.Size}
+					rs.Stage.Prepare([]sts.Binned{d})
+					rd := &midReader{r: &chunkyReader{data: it.data[t.b:t.e], rng: rng, max: 1 + int(t.e-t.b)/3, stop: -1}, at: int(t.e-t.b) / 2, fn: func() {
+						rs.Stage.CleanNow()
+						res.Count("cleanings_during_a_streaming_part", 1)
+					}}
+					_ = rs.Stage.Receive(d.partial("src"), rd)
+				} else {
+					_ = sendPart(it, it.data, it.hash, "", it.tiles[ti])
+				}
 				it.got[ti] = true
 			}
 			it.Parts = nrecv
